@@ -67,7 +67,9 @@ func postForm(req *protocol.Request, params param.Params, key string, defaultVal
 	if err == nil && mf.Value != nil {
 		for k, v := range mf.Value {
 			if k == key && len(v) > 0 {
-				ret = v[0]
+				// the field is part of the form even when its value is empty,
+				// same as for url-encoded forms (PeekExists above)
+				return v[0], true
 			}
 		}
 	}
